@@ -316,7 +316,7 @@ func (g *G) JSONText(label string) []byte {
 // encoding/json marshals without error.
 func (g *G) Iface(depth int, label string, jsonable bool) *Iface {
 	t := g.t
-	kinds := []string{"nil", "str", "int", "float", "bool", "struct", "ptrnil", "anon", "anonptr", "anonslice"}
+	kinds := []string{"nil", "str", "int", "float", "bool", "struct", "ptrnil", "anon", "anonptr", "anonslice", "indentmarshal"}
 	if depth > 0 {
 		kinds = append(kinds, "list", "map", "list", "map")
 	}
@@ -327,7 +327,7 @@ func (g *G) Iface(depth int, label string, jsonable bool) *Iface {
 		// Fields() handles string/int64/float64/bool/nil/RawMessage natively: only
 		// values that reach its reflection arm are drawn here
 		g.compositeOnly = false
-		kinds = []string{"struct", "ptrnil", "list", "map", "anon", "anonptr", "anonslice"}
+		kinds = []string{"struct", "ptrnil", "list", "map", "anon", "anonptr", "anonslice", "indentmarshal"}
 		if !jsonable {
 			kinds = append(kinds, "unmarshalable", "objmarshaler", "badmarshal")
 		}
@@ -351,7 +351,7 @@ func (g *G) Iface(depth int, label string, jsonable bool) *Iface {
 		i.B = rapid.Bool().Draw(t, label+".b")
 	case "badmarshal":
 		i.S = g.Bytes(label + ".errtext")
-	case "anon", "anonptr", "anonslice":
+	case "anon", "anonptr", "anonslice", "indentmarshal":
 		i.S = g.Bytes(label + ".s")
 		i.I = g.Int(64, label+".i")
 	case "struct":
@@ -851,7 +851,8 @@ func (g *G) Steps(label string, maxSteps int) []Step {
 		//             slices grown by append have spare capacity, and the siblings must not share it
 		// "disabledsibs": a Disabled logger with fields, two With() children of it, the first one re-enabled
 		//             by Level(): being switched off is no reason to share a context buffer
-		patKind = rapid.SampledFrom([]string{"copy", "copy", "disabled", "disabledctx", "ctxhooks", "disabledsibs"}).Draw(t, label+".updkind")
+		// "stackout":  With().Stack() and then Output/Level/Sample/Hook: every derivation keeps the stack flag
+		patKind = rapid.SampledFrom([]string{"copy", "copy", "disabled", "disabledctx", "ctxhooks", "disabledsibs", "stackout"}).Draw(t, label+".updkind")
 		if patKind == "disabledsibs" && n < 5 {
 			patKind = "disabled"
 		}
@@ -865,6 +866,7 @@ func (g *G) Steps(label string, maxSteps int) []Step {
 	}
 	patReset := false
 	forceLevel, forceN := 99, -1
+	forceStack := false
 	sibCtxHook, nSibCtx, ctxHookNh := false, 0, 0
 	for i := 0; i < n; i++ {
 		parent := i - 1
@@ -874,7 +876,7 @@ func (g *G) Steps(label string, maxSteps int) []Step {
 		case patKind == "copy" && i == patAt:
 			forced = "with"
 		case patKind == "copy" && i == patAt+1:
-			forced = rapid.SampledFrom([]string{"level", "sample", "hook", "viactx"}).Draw(t, label+".updcopy")
+			forced = rapid.SampledFrom([]string{"level", "sample", "hook", "viactx", "output"}).Draw(t, label+".updcopy")
 			if g.cfg.NoHooks && forced == "hook" {
 				forced = "level"
 			}
@@ -885,6 +887,15 @@ func (g *G) Steps(label string, maxSteps int) []Step {
 			f := patAt
 			from, parent = &f, f
 			patReset = rapid.Bool().Draw(t, label+".updreset")
+		case patKind == "stackout" && i == patAt:
+			forced, forceStack = "with", true
+		case patKind == "stackout" && i == patAt+1:
+			forced = rapid.SampledFrom([]string{"output", "output", "level", "sample", "hook"}).Draw(t, label+".stackcopy")
+			if g.cfg.NoHooks && forced == "hook" {
+				forced = "output"
+			}
+			f := patAt
+			from, parent = &f, f
 		case patKind == "ctxhooks" && i == patAt:
 			forced, ctxHookNh = "hook", 2
 		case patKind == "ctxhooks" && i >= patAt+1 && i <= patAt+3:
@@ -983,6 +994,10 @@ func (g *G) Steps(label string, maxSteps int) []Step {
 				}
 				nSibCtx++
 				st.Ops = []Op{{V: Val{T: kind}}}
+			}
+			if forceStack && k == "with" {
+				forceStack = false
+				st.Ops = append([]Op{{V: Val{T: "stack"}}}, st.Ops...)
 			}
 			if forced == "update" && patReset {
 				st.Ops = append([]Op{{V: Val{T: "reset"}}}, st.Ops...)
